@@ -321,7 +321,7 @@ pub fn run(ctx: &Ctx) {
 
 	// --- random long histories
 	let types = big_types();
-	let n_random = if cfg!(miri) { 3 } else { ctx.scale(3000, 60000) };
+	let n_random = if cfg!(miri) { 3 } else { ctx.scale(10_000, 150_000) };
 	let do_random = ctx.replay.as_ref().map_or(true, |r| r.workload == "random");
 	if do_random {
 		par_for(n_random, if cfg!(miri) { 1 } else { ctx.threads }, |i| {
